@@ -200,6 +200,7 @@ type StreamRec struct {
 	HandlerErr string
 	ClientReadErr, ClientWriteErr string
 	ClientBlocked bool
+	CallBlocked string // "open" / "close" while Conn.NewStream / Stream.Close has not returned
 	CloseErr string
 	Closed bool
 	AfterRead, AfterWrite string
@@ -226,6 +227,7 @@ type World struct {
 	shutdownQ simrt.WaitQ
 	shutdown bool
 	joinQ    simrt.WaitQ
+	streamEvQ simrt.WaitQ // woken at every progress step of a stream (opened, message read / written on either end)
 	active   int
 	listenGen []*listenState
 	Notes    []string
@@ -546,6 +548,7 @@ func (ss *StreamSvc) run(read func(*Msg) error, write func(*Msg) error) error {
 	w := ss.w
 	rec := w.Streams[ss.k]
 	rec.HandlerStart = simrt.Seq()
+	w.streamEvQ.WakeAll()
 	w.Execs = append(w.Execs, &ExecRec{Server: w.P.Conns[rec.Plan.Conn].Server, ID: uint64(1<<40 + ss.k), Shape: "stream", Start: rec.HandlerStart, Stream: true, G: simrt.Self()})
 	defer func() { rec.HandlerEnd = simrt.Seq() }()
 	for i := 0; i < rec.Plan.Push; i++ {
@@ -574,6 +577,7 @@ func (ss *StreamSvc) run(read func(*Msg) error, write func(*Msg) error) error {
 			rec.BadPayload++
 		}
 		rec.SGot = append(rec.SGot, m.ID)
+		w.streamEvQ.WakeAll()
 		if rec.Plan.Echo {
 			id := m.ID | 1<<31
 			out := &Msg{ID: id, Server: uint32(ss.k), Pad: MakePad(id, len(m.Pad))}
@@ -582,6 +586,7 @@ func (ss *StreamSvc) run(read func(*Msg) error, write func(*Msg) error) error {
 				return err
 			}
 			rec.SSent = append(rec.SSent, id)
+			w.streamEvQ.WakeAll()
 		}
 	}
 }
